@@ -1,0 +1,249 @@
+//go:build verif
+
+package ristretto
+
+import (
+	"sync/atomic"
+	"time"
+)
+
+// This file is only compiled with the "verif" build tag. It holds the hook
+// dispatcher and white-box accessors used by the runtime monitors under
+// /verif. Nothing here is reachable from a normal build.
+
+// Hook point identifiers passed to verifPoint: places between critical
+// sections where a monitor may observe, delay or hold the calling goroutine.
+const (
+	vpSetAfterStore = iota + 1
+	vpDelAfterStore
+	vpApplierItem
+	vpApplierAfterAdmit
+	vpApplierVictim
+	vpApplierTomb
+	vpApplierItemDone
+	vpSweepDone
+	vpClearStopped
+	vpClearDrained
+	vpClearPolicyCleared
+	vpSweepGrabbed
+	vpSweepKey
+	vpSweepChecked
+)
+
+// Exported names of the hook points.
+const (
+	VPSetAfterStore      = vpSetAfterStore
+	VPDelAfterStore      = vpDelAfterStore
+	VPApplierItem        = vpApplierItem
+	VPApplierAfterAdmit  = vpApplierAfterAdmit
+	VPApplierVictim      = vpApplierVictim
+	VPApplierTomb        = vpApplierTomb
+	VPApplierItemDone    = vpApplierItemDone
+	VPSweepDone          = vpSweepDone
+	VPClearStopped       = vpClearStopped
+	VPClearDrained       = vpClearDrained
+	VPClearPolicyCleared = vpClearPolicyCleared
+	VPSweepGrabbed       = vpSweepGrabbed
+	VPSweepKey           = vpSweepKey
+	VPSweepChecked       = vpSweepChecked
+)
+
+// VerifHook receives every hook point. owner identifies the cache (it is the
+// value returned by (*Cache).VerifOwner).
+type VerifHook func(owner any, point int, arg uint64)
+
+// VerifSampledHook receives the inputs of every eviction decision. It is
+// called with the policy mutex held; est is valid only during the call.
+type VerifSampledHook func(owner any, key uint64, incHits int64, sampleKeys []uint64, sampleCosts []int64,
+	minKey uint64, minHits int64, est func(uint64) int64)
+
+var (
+	verifHook        atomic.Pointer[VerifHook]
+	verifSampledHook atomic.Pointer[VerifSampledHook]
+)
+
+// VerifSetHook installs (or with nil removes) the process-wide hook.
+func VerifSetHook(h VerifHook) {
+	if h == nil {
+		verifHook.Store(nil)
+		return
+	}
+	verifHook.Store(&h)
+}
+
+// VerifSetSampledHook installs (or with nil removes) the eviction-decision hook.
+func VerifSetSampledHook(h VerifSampledHook) {
+	if h == nil {
+		verifSampledHook.Store(nil)
+		return
+	}
+	verifSampledHook.Store(&h)
+}
+
+func verifPoint(owner any, point int, arg uint64) {
+	if h := verifHook.Load(); h != nil {
+		(*h)(owner, point, arg)
+	}
+}
+
+func verifSampled(owner any, key uint64, incHits int64, sample []*policyPair, minKey uint64, minHits int64) {
+	h := verifSampledHook.Load()
+	if h == nil {
+		return
+	}
+	keys := make([]uint64, len(sample))
+	costs := make([]int64, len(sample))
+	for i, p := range sample {
+		keys[i], costs[i] = p.key, p.cost
+	}
+	var est func(uint64) int64
+	switch p := owner.(type) {
+	case interface{ verifEstimateLocked(uint64) int64 }:
+		est = p.verifEstimateLocked
+	}
+	(*h)(owner, key, incHits, keys, costs, minKey, minHits, est)
+}
+
+func (p *defaultPolicy[V]) verifEstimateLocked(key uint64) int64 { return p.admit.Estimate(key) }
+
+// VerifSetBufSize sets the capacity of the write buffer of caches created
+// afterwards and returns the previous value.
+func VerifSetBufSize(n int) int {
+	old := setBufSize
+	setBufSize = n
+	return old
+}
+
+// VerifSetBucketSeconds sets the width of an expiry bucket (before any cache
+// exists) and returns the previous value.
+func VerifSetBucketSeconds(n int64) int64 {
+	old := bucketDurationSecs
+	bucketDurationSecs = n
+	return old
+}
+
+// VerifBucketSeconds returns the width of an expiry bucket.
+func VerifBucketSeconds() int64 { return bucketDurationSecs }
+
+// VerifStorageBucket exposes the bucket numbering of the expiry index.
+func VerifStorageBucket(t time.Time) int64 { return storageBucket(t) }
+
+// VerifItemSize is the internal per-item cost added unless IgnoreInternalCost.
+func VerifItemSize() int64 { return itemSize }
+
+// VerifOwner returns the identity passed to hooks for this cache.
+func (c *Cache[K, V]) VerifOwner() any { return c.cachePolicy }
+
+// VerifPause stops the applier goroutine between two items (the handshake
+// Clear uses) and returns once it has stopped. VerifResume restarts it.
+func (c *Cache[K, V]) VerifPause() {
+	c.stop <- struct{}{}
+	<-c.done
+}
+
+// VerifResume restarts the applier goroutine after VerifPause.
+func (c *Cache[K, V]) VerifResume() { go c.processItems() }
+
+// VerifEntry is one stored entry as seen in a snapshot.
+type VerifEntry[V any] struct {
+	Key, Conflict uint64
+	Value         V
+	Expiration    time.Time
+}
+
+// VerifSnap is a snapshot of the internal state, taken lock by lock.
+type VerifSnap[V any] struct {
+	MaxCost, Used int64
+	KeyCosts      map[uint64]int64
+	Entries       []VerifEntry[V]
+	Buckets       map[int64]map[uint64]uint64
+	LastCleaned   int64
+	SetBufLen     int
+	GetChLen      int
+}
+
+// VerifSnapshot copies the policy accounting, every shard and the expiry
+// index, each under the lock the cache itself uses. It is consistent only
+// when the applier is paused or held and no client call is in flight.
+func (c *Cache[K, V]) VerifSnapshot() *VerifSnap[V] {
+	s := &VerifSnap[V]{KeyCosts: map[uint64]int64{}, Buckets: map[int64]map[uint64]uint64{}}
+	p := c.cachePolicy
+	p.Lock()
+	s.MaxCost = p.evict.getMaxCost()
+	s.Used = p.evict.used
+	for k, v := range p.evict.keyCosts {
+		s.KeyCosts[k] = v
+	}
+	p.Unlock()
+	sm := c.storedItems.(*shardedMap[V])
+	for _, sh := range sm.shards {
+		sh.RLock()
+		for _, it := range sh.data {
+			s.Entries = append(s.Entries, VerifEntry[V]{it.key, it.conflict, it.value, it.expiration})
+		}
+		sh.RUnlock()
+	}
+	em := sm.expiryMap
+	em.RLock()
+	s.LastCleaned = em.lastCleanedBucketNum
+	for n, b := range em.buckets {
+		cp := make(map[uint64]uint64, len(b))
+		for k, v := range b {
+			cp[k] = v
+		}
+		s.Buckets[n] = cp
+	}
+	em.RUnlock()
+	s.SetBufLen = len(c.setBuf)
+	s.GetChLen = len(p.itemsCh)
+	return s
+}
+
+// VerifEstimate returns the admission policy's frequency estimate of a key hash.
+func (c *Cache[K, V]) VerifEstimate(keyHash uint64) int64 {
+	c.cachePolicy.Lock()
+	defer c.cachePolicy.Unlock()
+	return c.cachePolicy.admit.Estimate(keyHash)
+}
+
+// VerifIncrement records n accesses of a key hash directly in the admission
+// policy (what a drained Get batch does).
+func (c *Cache[K, V]) VerifIncrement(keyHash uint64, n int) {
+	c.cachePolicy.Lock()
+	defer c.cachePolicy.Unlock()
+	for i := 0; i < n; i++ {
+		c.cachePolicy.admit.Increment(keyHash)
+	}
+}
+
+// VerifHash returns the (key, conflict) hashes the cache uses for a key.
+func (c *Cache[K, V]) VerifHash(key K) (uint64, uint64) { return c.keyToHash(key) }
+
+// VerifSketch wraps the count-min sketch for white-box monitoring.
+type VerifSketch struct{ s *cmSketch }
+
+func VerifNewSketch(numCounters int64) *VerifSketch { return &VerifSketch{newCmSketch(numCounters)} }
+func (v *VerifSketch) Increment(h uint64)           { v.s.Increment(h) }
+func (v *VerifSketch) Estimate(h uint64) int64      { return v.s.Estimate(h) }
+func (v *VerifSketch) Reset()                       { v.s.Reset() }
+func (v *VerifSketch) Clear()                       { v.s.Clear() }
+func (v *VerifSketch) Depth() int                   { return cmDepth }
+func (v *VerifSketch) Mask() uint64                 { return v.s.mask }
+func (v *VerifSketch) Seed(i int) uint64            { return v.s.seed[i] }
+func (v *VerifSketch) Row(i int) []byte             { return v.s.rows[i] }
+
+// VerifTinyLFU wraps the admission helper (sketch + doorkeeper + aging).
+type VerifTinyLFU struct{ t *tinyLFU }
+
+func VerifNewTinyLFU(numCounters int64) *VerifTinyLFU { return &VerifTinyLFU{newTinyLFU(numCounters)} }
+func (v *VerifTinyLFU) Increment(h uint64)            { v.t.Increment(h) }
+func (v *VerifTinyLFU) Push(hs []uint64)              { v.t.Push(hs) }
+func (v *VerifTinyLFU) Estimate(h uint64) int64       { return v.t.Estimate(h) }
+func (v *VerifTinyLFU) Clear()                        { v.t.clear() }
+func (v *VerifTinyLFU) Incrs() int64                  { return v.t.incrs }
+func (v *VerifTinyLFU) ResetAt() int64                { return v.t.resetAt }
+func (v *VerifTinyLFU) DoorHas(h uint64) bool         { return v.t.door.Has(h) }
+func (v *VerifTinyLFU) Sketch() *VerifSketch          { return &VerifSketch{v.t.freq} }
+
+// VerifNext2Power exposes the table-size rounding.
+func VerifNext2Power(x int64) int64 { return next2Power(x) }
